@@ -158,8 +158,9 @@ def explore(run, max_paths=4000):
         except PyExc as e:
             out.append(PathResult('raise', e, p))
         except PathEnd:
-            # cut path: its obligations still count
-            out.append(PathResult('cut', None, p))
+            # cut path (end of a loop body under a loop spec, or an infeasible continuation): only its obligations count;
+            # a cut path that recorded none says nothing and is not an execution of the function
+            if p.obligations: out.append(PathResult('cut', None, p))
         for i in p.open_alts:
             pending.append(p.taken[:i] + [False])
     return out
